@@ -5,6 +5,8 @@ import (
 	"encoding/json"
 	"fmt"
 	"os"
+	"os/exec"
+	"path/filepath"
 	"strings"
 
 	"verif/engine/explore"
@@ -43,6 +45,25 @@ func replayFile(path string) int {
 	}
 	if r, ok := Replayers[v.Kind]; ok {
 		return r(v.Property, v.Clause+"/"+v.Sig, []byte(v.Replay))
+	}
+	if v.Kind == "schedule" {
+		// engine E4 replays need the overlay build (run19.sh / run.sh C13 produce it)
+		for _, bin := range []string{"vcheck19", "vcheck13"} {
+			exe := filepath.Join(Root, "bin", bin)
+			if _, err := os.Stat(exe); err == nil {
+				cmd := exec.Command(exe, "replay", path)
+				cmd.Stdout, cmd.Stderr = os.Stdout, os.Stderr
+				if err := cmd.Run(); err != nil {
+					if ee, ok := err.(*exec.ExitError); ok {
+						return ee.ExitCode()
+					}
+					return 2
+				}
+				return 0
+			}
+		}
+		fmt.Println("schedule replays need bin/vcheck19 (./run19.sh quick builds it)")
+		return 2
 	}
 	fmt.Printf("unknown replay kind %q\n", v.Kind)
 	return 2
